@@ -1048,7 +1048,7 @@ func imageSeenOrWait(ctx context.Context, opt *imageOpt, repo, tag string, dig d
 //   - blobs/$algo/$hash: each content addressable object (manifest, config, or layer), created recursively
 //
 // [OCI Layout]: https://github.com/opencontainers/image-spec/blob/master/image-layout.md
-func (rc *RegClient) ImageExport(ctx context.Context, r ref.Ref, outStream io.Writer, opts ...ImageOpts) error {
+func (rc *RegClient) ImageExport(ctx context.Context, r ref.Ref, outStream io.Writer, opts ...ImageOpts) (err error) {
 	if !r.IsSet() {
 		return fmt.Errorf("ref is not set: %s%.0w", r.CommonName(), errs.ErrInvalidReference)
 	}
@@ -1070,11 +1070,21 @@ func (rc *RegClient) ImageExport(ctx context.Context, r ref.Ref, outStream io.Wr
 	out := outStream
 	if opt.exportCompress {
 		gzOut := gzip.NewWriter(out)
-		defer gzOut.Close()
+		// closing flushes the compressed data, a failure to write it is a failed export
+		defer func() {
+			if errClose := gzOut.Close(); errClose != nil && err == nil {
+				err = fmt.Errorf("failed to close export stream: %w", errClose)
+			}
+		}()
 		out = gzOut
 	}
 	tw := tar.NewWriter(out)
-	defer tw.Close()
+	// closing writes the padding of the last file and the end of archive marker
+	defer func() {
+		if errClose := tw.Close(); errClose != nil && err == nil {
+			err = fmt.Errorf("failed to close export tar: %w", errClose)
+		}
+	}()
 	twd := &tarWriteData{
 		tw:    tw,
 		dirs:  map[string]bool{},
